@@ -652,6 +652,18 @@ impl Node {
         }
         debug!("Payment is valid for record {pretty_key}");
 
+        // our own quote(s) must have been issued for the very record being stored
+        let quoted_for_this_record = payment
+            .quotes_by_peer(&self_peer_id)
+            .iter()
+            .all(|quote| Some(quote.content) == address.as_xorname());
+        if !quoted_for_this_record {
+            warn!("Payment quote was not issued for record {pretty_key}");
+            return Err(Error::InvalidRequest(format!(
+                "Payment quote was not issued for record {pretty_key}"
+            )));
+        }
+
         // verify quote expiration
         if payment.has_expired() {
             warn!("Payment quote has expired for record {pretty_key}");
